@@ -102,3 +102,10 @@ def use_twice(x):
     if y % 2 == 0:
         return "even"
     return "odd"
+
+
+def big(n):
+    """A result that does not fit into a pipe buffer."""
+    if n > 1:
+        return "x" * (n * 40000)
+    return "small"
